@@ -38,6 +38,8 @@ type Check struct {
 	Race      bool // workers run from the -race build, race logs are scanned
 	Cases     func(tier string) int
 	Run       func(seed uint64, idx int, tier string) *Result
+	// ExhaustivePart - which finite sub-space this check enumerates completely (evidence key exhaustive_part).
+	ExhaustivePart string
 	// Assumptions listed in evidence.
 	Assumptions []string
 	// Serial - run in a single worker (checks touching process-wide state heavily still run in worker processes).
